@@ -23,6 +23,30 @@ MODELLED = [
 PINNED = {}
 
 
+class C07Check(Check):
+    """line-level ddmin (vcheck) followed by token-level minimisation of the key lists of bget / pbget lines"""
+
+    def shrink(self, case_ops, hbin, exe, exe_args, budget=150):
+        cur = super().shrink(case_ops, hbin, exe, exe_args, budget)
+        if not self._fails(cur, hbin, exe, exe_args):
+            return cur
+        runs = 0
+        for i in range(len(cur)):
+            w = cur[i].split()
+            if w[0] not in ("bget", "pbget"):
+                continue
+            j = 1
+            while j < len(w) and len(w) > 2 and runs < 60:
+                cand = w[:j] + w[j + 1:]
+                runs += 1
+                if self._fails(cur[:i] + [" ".join(cand)] + cur[i + 1:], hbin, exe, exe_args):
+                    w = cand
+                else:
+                    j += 1
+            cur[i] = " ".join(w)
+        return cur
+
+
 def facts(c):
     """no constants to regenerate for C07; the modelled functions must still exist, and their fingerprints go
     into the evidence"""
@@ -75,7 +99,7 @@ def setup(c):
 
 
 def run(a):
-    c = Check(PID, a.tier, a.seed)
+    c = C07Check(PID, a.tier, a.seed)
     setup(c)
     if facts(c):
         exe = c.build_driver(EXE)
@@ -96,7 +120,7 @@ def run(a):
 
 def replay(a):
     """re-execute every failing case of a replay file (each from a fresh state) against the current tree and the model"""
-    c = Check(PID, a.tier, a.seed)
+    c = C07Check(PID, a.tier, a.seed)
     setup(c)
     rp = json.load(open(a.replay))
     cases = [p["case"] for p in rp["problems"] if p["kind"] in ("property", "correspondence") and p["case"]]
